@@ -226,8 +226,8 @@ pub open spec fn class_tail(bytes: Seq<u8>, o: Seq<u8>, b: Seq<u8>) -> Seq<u8> {
     f = mp.fn("parse_proguard_class")
     f.ret("ret")
     f.props_all = ["C05", "C06"]; f.props_safety = P13
-    f.closure("|c|", occ=1, params="|c: &u8|", ret="r: bool", spec="ensures r == ({specbody})", spec_map=SPEC_MAP)
-    f.closure("|c|", occ=2, params="|c: &u8|", ret="r: bool", spec="ensures r == ({specbody})", spec_map=SPEC_MAP)
+    for occ in range(1, len(re.findall(r"\|c\|", f.orig)) + 1):
+        f.closure("|c|", occ=occ, params="|c: &u8|", ret="r: bool", spec="ensures r == ({specbody})", spec_map=SPEC_MAP)
     f.contract("""    ensures
         /*@L:class_line_grammar:C05*/ match ret {
             Ok((ProguardRecord::Class { original, obfuscated }, rest)) =>
@@ -340,10 +340,10 @@ pub proof fn lemma_sfp_no_nl()
     f = mp.fn("parse_proguard_header")
     f.ret("ret")
     f.props_all = ["C05", "C06"]; f.props_safety = P13
-    f.closure("|c|", occ=1, params="|c: &u8|", ret="r: bool", spec="ensures r == ({specbody})", spec_map=SPEC_MAP)
-    f.closure("|c|", occ=2, params="|c: &u8|", ret="r: bool", spec="ensures r == ({specbody})", spec_map=SPEC_MAP)
+    for occ in range(1, len(re.findall(r"\|c\|", f.orig)) + 1):
+        f.closure("|c|", occ=occ, params="|c: &u8|", ret="r: bool", spec="ensures r == ({specbody})", spec_map=SPEC_MAP)
     f.replace_all_re(r"parse_until\(bytes, is_newline\)", "parse_until(bytes, |b: &u8| -> (r: bool) ensures r == spec_is_newline(*b) { is_newline(b) })", "R3",
-                     why="fn item `is_newline` passed as predicate: eta-expanded into a closure carrying its contract", min_count=1)
+                     why="fn item `is_newline` passed as predicate: eta-expanded into a closure carrying its contract", min_count=0)
     f.replace_all_re(r"\.map\(\|\(v, bytes\)\| \(Some\(v\), bytes\)\)", ".map(|vb: (&str, &[u8])| -> (r: (Option<&str>, &[u8])) ensures r == (Some(vb.0), vb.1) { let (v, bytes) = vb; (Some(v), bytes) })", "R3",
                      why="closure with a tuple pattern parameter: pattern moved into a `let` inside the body, contract added", min_count=1)
     f.replace_all_re(r"key\.trim\(\)", "shim_trim(key)", "R2", why="str::trim behind a shim (result is a sub-slice)", min_count=0)
@@ -470,10 +470,10 @@ pub proof fn lemma_numeric_no_nl(b: Seq<u8>, k: int)
     f = mp.fn("parse_proguard_field_or_method")
     f.ret("ret")
     f.props_all = ["C05", "C06"]; f.props_safety = P13
-    for occ in (1, 2, 3):
+    for occ in range(1, len(re.findall(r"\|c\|", f.orig)) + 1):
         f.closure("|c|", occ=occ, params="|c: &u8|", ret="r: bool", spec="ensures r == ({specbody})", spec_map=SPEC_MAP)
     f.replace_all_re(r"parse_until\(bytes, is_newline\)", "parse_until(bytes, |b: &u8| -> (r: bool) ensures r == spec_is_newline(*b) { is_newline(b) })", "R3",
-                     why="fn item `is_newline` passed as predicate: eta-expanded into a closure carrying its contract", min_count=1)
+                     why="fn item `is_newline` passed as predicate: eta-expanded into a closure carrying its contract", min_count=0)
     # R5 (trusted region): the three rsplitn statements
     f.replace_re(r"let mut split_class = original\.rsplitn\(2, '\.'\);\s*let original = split_class\.next\(\)\.ok_or\(ParseError \{\s*line: bytes,\s*kind: ParseErrorKind::ParseError\(\"line is not a valid proguard record\"\),\s*\}\)\?;\s*let original_class = split_class\.next\(\);",
                  """let ghost orig_full = str_bytes(original);
